@@ -1,7 +1,7 @@
 SPECIFICATION GSpec
 CONSTANTS NR = 2
           NEST = TRUE
-          LISTS = FALSE
+          LISTS = "no"
 CHECK_DEADLOCK FALSE
 INVARIANT Emit
 PROPERTY NoLeak
